@@ -119,6 +119,10 @@ package dao
 //@ opt stable dao.Store, dao.Store.ps
 //@ opt opaque-callees (*BinWriter).
 //@ call Store).Put requires[stub] len(arg1) > len(key) ==> lastseq(Put) > lastseq(Get)
+// Every per-signer record is filed under the hash of the attribute being processed: its key is the
+// stub's key (which carries that hash) followed by the signer's account.
+//@ call Store).Put requires[signerkey] len(arg1) > len(key) ==> len(arg1) == len(key) + 20 && forall(i, 0, len(key), arg1[i] == key[i])
+//@ loop 1 invariant[prefix] len(sKey) == len(key) + 20 && fresh(sKey) && forall(i, 0, len(key), sKey[i] == key[i])
 
 // C09: a range scan over contract storage runs on a prefix of its own - not the DAO's shared key
 // buffer - so that the callback may use the DAO without moving the range under the scan.
